@@ -172,9 +172,9 @@ OptsFor(t, Jd) == LET hi == HasIface(t)
 
 Init == /\ T \in MyTypes
         /\ J \in DocsFor(T)
-        /\ old \in {"zero", "pre"}
+        /\ old \in {"zero", "pre"} \cup (IF HasSlice(T) THEN {"precap"} ELSE {})
         /\ o \in OptsFor(T, J)
-        /\ R = Unmarshal(T, J, IF old = "zero" THEN Zero(T) ELSE Pre(T), o)
+        /\ R = Unmarshal(T, J, CASE old = "zero" -> Zero(T) [] old = "pre" -> Pre(T) [] old = "precap" -> PreCap(T), o)
 Next == UNCHANGED vars
 Spec == Init /\ [][Next]_vars
 
